@@ -167,6 +167,8 @@ class VarInt(Type):
 
     @staticmethod
     def send(value, socket):
+        if value < 0:
+            raise ValueError("Cannot encode a negative number as a VarInt")
         out = bytes()
         while True:
             byte = value & 0x7F
